@@ -491,11 +491,19 @@ def check_rewritten_table_file(ck, label, files, decode, rng, rounds):
     import shutil
     if len(files) < 2:
         return
-    shared = os.path.join(os.path.dirname(files[0]), 'shared_table_file_' + label)
-    for _ in range(rounds):
+    import tempfile
+    shared = os.path.join(tempfile.gettempdir(), 'shared_table_file_' + label)     # (the run's private scratch directory)
+    done = 0
+    for _ in range(rounds * 6):
+        if done >= rounds:
+            break
         a, b = rng.sample(files, 2)
         seq = [a, b, a] if rng.random() < 0.5 else [a, b]
         want = {p: decode(p) for p in set(seq)}
+        if want[a] == want[b]:
+            ck.count('table file rewritten between decodes: pair that the sample cannot tell apart (skipped)')
+            continue
+        done += 1
         st = None
         for i, src in enumerate(seq):
             shutil.copyfile(src, shared)
